@@ -31,3 +31,126 @@ package plugin
 //@   ensures#valid err == nil ==> validname(name)                                                          [C09 C17]
 //@   ensures#nil err != nil ==> name == "" && data == nil                                                  [C09 C14 C17]
 //@   ensures#hrp err == nil ==> hasprefix(s, cat("age1", name)) && at(s, 4 + len(name)) == 49               [C09 C17]
+
+//@ func NewRecipient(s, ui) (r, err)
+//@   ensures#valid err == nil ==> r != nil && validname(r.name) && r.encoding == s && r.ui == ui && !r.identity     [C17]
+//@   ensures#nil err != nil ==> r == nil                                                                          [C14 C17]
+//@   ensures#noexec $execs == old($execs)                                                                         [C17]
+//@   fresh r when err == nil
+//@   modifies nothing
+
+//@ func NewIdentity(s, ui) (i, err)
+//@   ensures#valid err == nil ==> i != nil && validname(i.name) && i.encoding == s && i.ui == ui                   [C17]
+//@   ensures#nil err != nil ==> i == nil                                                                          [C14 C17]
+//@   ensures#noexec $execs == old($execs)                                                                         [C17]
+//@   fresh i when err == nil
+//@   modifies nothing
+
+//@ func NewIdentityWithoutData(name, ui) (i, err)
+//@   ensures#valid err == nil ==> i != nil && validname(i.name) && i.name == name && i.ui == ui                    [C17]
+//@   ensures#nil err != nil ==> i == nil                                                                          [C14 C17]
+//@   ensures#noexec $execs == old($execs)                                                                         [C17]
+//@   fresh i when err == nil
+//@   modifies nothing
+
+//@ func (*Identity).Recipient(i) (r)
+//@   ensures#copy r != nil && r.name == i.name && r.encoding == i.encoding && r.identity && r.ui == i.ui           [C16 C17]
+//@   fresh r
+//@   modifies nothing
+
+//@ func writeStanza(conn, t, args) (err)
+//@   requires conn != nil
+//@   ensures#out err == nil ==> hasprefix(conn.$out, old(conn.$out))
+//@   modifies conn.$out
+
+//@ func writeStanzaWithBody(conn, t, body) (err)
+//@   requires conn != nil
+//@   ensures#out err == nil ==> hasprefix(conn.$out, old(conn.$out))
+//@   modifies conn.$out
+
+//@ func openClientConnection(name, protocol) (cc, err)
+//@   call execabs.Command#1 requires testOnlyPluginPath == "" ==> (arg0 == cat("age-plugin-", name) && !containsrune47(name))      [C17]
+//@   ensures#ok err == nil ==> cc != nil && cc.Writer != nil && cc.Reader != nil && cc.cmd != nil                                  [C16 C17]
+//@   ensures#nil err != nil ==> cc == nil                                                                                          [C14 C16 C17]
+//@   ensures#once $execs <= old($execs) + 1                                                                                        [C17]
+//@   fresh cc when err == nil
+
+//@ func (*ClientUI).readStanza(c, name, r) (s, err)
+//@   requires c != nil && r != nil && r.r != nil
+//@   ensures#reject err != nil ==> s == nil                                                                                        [C14 C16]
+//@   ensures#valid err == nil ==> s != nil && len(s.Type) > 0 && !isnil(s.Args)                                                    [C16]
+//@   ensures#stored r.err == err                                                                                                   [C16]
+//@   ensures#progress err == nil ==> len(r.r.$rem) < len(old(r.r.$rem))                                                            [C14 C16]
+//@   ensures#noadvance old(r.err) != nil ==> err == old(r.err)                                                                     [C16]
+//@   fresh s when err == nil
+//@   modifies r.err, r.r.$rem, r.r.$bufd, r.r.$under.$rem
+
+//@ func (*ClientUI).handle(c, name, conn, s) (ok, err)
+//@   requires c != nil && conn != nil && s != nil && conn.Writer != nil
+//@   call writeStanza#1 requires arg1 == "fail" && s.Type == "msg" && c.DisplayMessage == nil                                       [C16]
+//@   call writeStanza#2 requires arg1 == "fail" && s.Type == "msg"                                                                 [C16]
+//@   call writeStanza#3 requires arg1 == "ok" && s.Type == "msg" && len(arg2) == 0                                                 [C16]
+//@   call writeStanza#4 requires arg1 == "fail" && (s.Type == "request-secret" || s.Type == "request-public") && c.RequestValue == nil   [C16]
+//@   call writeStanza#5 requires arg1 == "fail" && (s.Type == "request-secret" || s.Type == "request-public")                       [C16]
+//@   call writeStanzaWithBody#1 requires arg1 == "ok" && (s.Type == "request-secret" || s.Type == "request-public")                 [C16]
+//@   call writeStanza#6 requires arg1 == "fail" && s.Type == "confirm" && c.Confirm == nil                                          [C16]
+//@   call writeStanza#7 requires arg1 == "fail" && s.Type == "confirm"                                                             [C16]
+//@   call writeStanza#8 requires arg1 == "ok" && s.Type == "confirm" && len(arg2) == 1 && (arg2[0] == "yes" || arg2[0] == "no")     [C16]
+//@   modifies conn.$out
+//@   ensures#known ok <==> (s.Type == "msg" || s.Type == "request-secret" || s.Type == "request-public" || s.Type == "confirm")     [C16]
+//@   ensures#unknownsilent !ok ==> err == nil && conn.$out == old(conn.$out)                                                       [C16]
+//@   ensures#confirmargs (s.Type == "confirm" && len(s.Args) != 1 && len(s.Args) != 2) ==> err != nil && conn.$out == old(conn.$out)   [C16]
+//@   ensures#replied (ok && err == nil) ==> calls("writeStanza", 1) + calls("writeStanza", 2) + calls("writeStanza", 3) + calls("writeStanza", 4) + calls("writeStanza", 5) + calls("writeStanzaWithBody", 1) + calls("writeStanza", 6) + calls("writeStanza", 7) + calls("writeStanza", 8) == old(calls("writeStanza", 1) + calls("writeStanza", 2) + calls("writeStanza", 3) + calls("writeStanza", 4) + calls("writeStanza", 5) + calls("writeStanzaWithBody", 1) + calls("writeStanza", 6) + calls("writeStanza", 7) + calls("writeStanza", 8)) + 1   [C16]
+
+//@ pred rsvalid(s) := len(s.Args) >= 2 && atoiok(s.Args[0]) && atoi(s.Args[0]) == 0
+
+//@ func (*Recipient).WrapWithLabels(r, fileKey) (stanzas, labels, err)
+//@   requires r.ui != nil
+//@   call openClientConnection#1 requires arg0 == r.name && arg1 == "recipient-v1"                                                 [C16 C17]
+//@   call writeStanza#1 requires id(arg0) == id(conn) && arg1 == (r.identity ? "add-identity" : "add-recipient") && len(arg2) == 1 && arg2[0] == r.encoding   [C16]
+//@   call writeStanza#2 requires id(arg0) == id(conn) && hasprefix(arg1, "grease-") && len(arg2) == 0                              [C16]
+//@   call writeStanzaWithBody#1 requires id(arg0) == id(conn) && arg1 == "wrap-file-key" && same(arg2, fileKey)                     [C16]
+//@   call writeStanza#3 requires id(arg0) == id(conn) && arg1 == "extension-labels" && len(arg2) == 0                              [C16]
+//@   call writeStanza#4 requires id(arg0) == id(conn) && arg1 == "done" && len(arg2) == 0                                          [C16]
+//@   call writeStanza#5 requires id(arg0) == id(conn) && arg1 == "ok" && len(arg2) == 0 && s.Type == "recipient-stanza" && rsvalid(s)   [C16]
+//@   call writeStanza#6 requires id(arg0) == id(conn) && arg1 == "ok" && len(arg2) == 0 && s.Type == "labels" && same(labels, s.Args)    [C16]
+//@   call writeStanza#7 requires id(arg0) == id(conn) && arg1 == "ok" && len(arg2) == 0 && s.Type == "error"                       [C16]
+//@   call writeStanza#8 requires id(arg0) == id(conn) && arg1 == "unsupported" && len(arg2) == 0 && s.Type != "recipient-stanza" && s.Type != "labels" && s.Type != "error" && s.Type != "done" && s.Type != "msg" && s.Type != "confirm" && s.Type != "request-secret" && s.Type != "request-public"   [C16]
+//@   call handle#1 requires arg2 == conn && arg3 == s                                                                             [C16]
+//@   loop 1 invariant conn != nil && conn.Writer != nil && sr != nil && sr.r != nil && r.ui != nil && r.ui == old(r.ui)
+//@   loop 1 invariant#accepted len(stanzas) == calls("writeStanza", 5) - old(calls("writeStanza", 5))                              [C16]
+//@   loop 1 invariant#labelsonce (isnil(labels) ==> calls("writeStanza", 6) == old(calls("writeStanza", 6))) && (!isnil(labels) ==> calls("writeStanza", 6) == old(calls("writeStanza", 6)) + 1)   [C16]
+//@   loop 1 invariant#noerrack calls("writeStanza", 7) == old(calls("writeStanza", 7))                                            [C16]
+//@   loop 1 invariant#phase1 calls("writeStanza", 1) == old(calls("writeStanza", 1)) + 1 && calls("writeStanza", 2) == old(calls("writeStanza", 2)) + 1 && calls("writeStanzaWithBody", 1) == old(calls("writeStanzaWithBody", 1)) + 1 && calls("writeStanza", 3) == old(calls("writeStanza", 3)) + 1 && calls("writeStanza", 4) == old(calls("writeStanza", 4)) + 1   [C16]
+//@   loop 1 decreases len(sr.r.$rem)
+//@   ensures#nonempty err == nil ==> len(stanzas) > 0 && len(stanzas) == calls("writeStanza", 5) - old(calls("writeStanza", 5))    [C16]
+//@   ensures#phase1 err == nil ==> calls("writeStanza", 1) == old(calls("writeStanza", 1)) + 1 && calls("writeStanza", 2) == old(calls("writeStanza", 2)) + 1 && calls("writeStanzaWithBody", 1) == old(calls("writeStanzaWithBody", 1)) + 1 && calls("writeStanza", 3) == old(calls("writeStanza", 3)) + 1 && calls("writeStanza", 4) == old(calls("writeStanza", 4)) + 1   [C16]
+//@   ensures#labelsonce err == nil ==> calls("writeStanza", 6) <= old(calls("writeStanza", 6)) + 1                                 [C16]
+//@   ensures#noerrack err == nil ==> calls("writeStanza", 7) == old(calls("writeStanza", 7))                                       [C16]
+//@   ensures#nil err != nil ==> stanzas == nil && labels == nil                                                                   [C14 C16]
+//@   ensures#oneexec $execs <= old($execs) + 1                                                                                    [C17]
+
+//@ func (*Identity).Unwrap(i, stanzas) (fileKey, err)
+//@   requires i.ui != nil && (forall j in 0..len(stanzas) :: stanzas[j] != nil)
+//@   call openClientConnection#1 requires arg0 == i.name && arg1 == "identity-v1"                                                  [C16 C17]
+//@   call writeStanza#1 requires id(arg0) == id(conn) && arg1 == "add-identity" && len(arg2) == 1 && arg2[0] == i.encoding          [C16]
+//@   call writeStanza#2 requires id(arg0) == id(conn) && hasprefix(arg1, "grease-") && len(arg2) == 0                              [C16]
+//@   call Marshal#1 requires id(arg1) == id(conn) && arg0.Type == "recipient-stanza" && len(arg0.Args) == len(rs.Args) + 2 && arg0.Args[0] == "0" && arg0.Args[1] == rs.Type && same(arg0.Body, rs.Body) && rs == stanzas[rangeindex]   [C16]
+//@   call writeStanza#3 requires id(arg0) == id(conn) && arg1 == "done" && len(arg2) == 0                                          [C16]
+//@   call writeStanza#4 requires id(arg0) == id(conn) && arg1 == "ok" && len(arg2) == 0 && s.Type == "file-key" && len(s.Args) == 1 && atoiok(s.Args[0]) && atoi(s.Args[0]) == 0 && same(fileKey, s.Body)   [C16]
+//@   call writeStanza#5 requires id(arg0) == id(conn) && arg1 == "ok" && len(arg2) == 0 && s.Type == "error"                       [C16]
+//@   call writeStanza#6 requires id(arg0) == id(conn) && arg1 == "unsupported" && len(arg2) == 0 && s.Type != "file-key" && s.Type != "error" && s.Type != "done" && s.Type != "msg" && s.Type != "confirm" && s.Type != "request-secret" && s.Type != "request-public"   [C16]
+//@   call handle#1 requires arg2 == conn && arg3 == s                                                                             [C16]
+//@   loop 1 invariant -1 <= rangeindex && rangeindex < len(stanzas) && conn != nil && conn.Writer != nil && unchanged(stanzas) && (forall j in 0..len(stanzas) :: stanzas[j] != nil) && i.ui != nil && i.ui == old(i.ui)
+//@   loop 1 invariant#forwarded calls("Marshal", 1) == old(calls("Marshal", 1)) + rangeindex + 1                                   [C16]
+//@   loop 1 invariant#phase1 calls("writeStanza", 1) == old(calls("writeStanza", 1)) + 1 && calls("writeStanza", 2) == old(calls("writeStanza", 2)) + 1   [C16]
+//@   loop 1 decreases len(stanzas) - rangeindex
+//@   loop 2 invariant conn != nil && conn.Writer != nil && sr != nil && sr.r != nil && i.ui != nil && i.ui == old(i.ui)
+//@   loop 2 invariant#keyonce (isnil(fileKey) ==> calls("writeStanza", 4) == old(calls("writeStanza", 4))) && (!isnil(fileKey) ==> calls("writeStanza", 4) == old(calls("writeStanza", 4)) + 1)   [C16]
+//@   loop 2 invariant#noerrack calls("writeStanza", 5) == old(calls("writeStanza", 5))                                            [C16]
+//@   loop 2 invariant#phase1 calls("writeStanza", 1) == old(calls("writeStanza", 1)) + 1 && calls("writeStanza", 2) == old(calls("writeStanza", 2)) + 1 && calls("writeStanza", 3) == old(calls("writeStanza", 3)) + 1 && calls("Marshal", 1) == old(calls("Marshal", 1)) + len(stanzas)   [C16]
+//@   loop 2 decreases len(sr.r.$rem)
+//@   ensures#phase1 err == nil ==> calls("writeStanza", 1) == old(calls("writeStanza", 1)) + 1 && calls("writeStanza", 2) == old(calls("writeStanza", 2)) + 1 && calls("writeStanza", 3) == old(calls("writeStanza", 3)) + 1 && calls("Marshal", 1) == old(calls("Marshal", 1)) + len(stanzas)   [C16]
+//@   ensures#keyonce err == nil ==> !isnil(fileKey) && calls("writeStanza", 4) == old(calls("writeStanza", 4)) + 1                 [C16]
+//@   ensures#nil err != nil ==> fileKey == nil                                                                                    [C14 C16]
+//@   ensures#oneexec $execs <= old($execs) + 1                                                                                    [C17]
